@@ -328,6 +328,69 @@ for _n in range(0, 5):
         _contains_after_head(_n))
 
 
+SPF = BASE + '.send_priority_frame'
+
+
+@harness('c05.send_priority_frame', ['C05', 'C16', 'C08', 'C01'], functions=[SPF],
+         assumptions=['the drained items are held in a Python list: modelled as a list of symbolic length (append / len / iteration in '
+                      'order); asyncio.Queue put_nowait / get_nowait / empty as modelled (FIFO)'])
+def priority_unbounded(E):
+    """For EVERY content of the send queue: afterwards the queue holds the priority frame at its head followed by exactly the
+    previous content in the previous order - nothing lost, nothing duplicated, nothing re-ordered.  Two loop contracts (drain,
+    refill) over a symbolic list of drained items."""
+    E.import_module('asyncio')
+    sock = new_obj(E, 'rsocket/rsocket_client.py::RSocketClient')
+    q = aio.new_symbolic_queue(E, E.lookup(QP), 'sendq')
+    sock.attrs['_send_queue'] = q
+    E.queue_item_hook = lambda E_, term, label: SOpaque('qitem', label, attrs={'_id': term})
+    s = q.attrs['_sym']
+    arr0, h0, t0 = s['arr0'], s['h0'], s['t0']
+    fr = SOpaque('frame', 'priority')
+    fid = aio.registry(E).id_of(fr)
+    ITEMS = (('appended',),)
+    j = z3.Int('spf.j')
+    st = {}
+
+    def drained(ctx):
+        return ctx.local('items', *ITEMS)
+
+    def inv_drain(ctx):
+        k = I(ctx.k)
+        if ctx.phase == 'entry':
+            it = drained(ctx)
+            return [('nothing drained yet', isinstance(it, list) and it == [] and True)]
+        it = drained(ctx)
+        return [('k items drained from the head, in order, nothing else touched',
+                 z3.And(I(it.n) == k, s['h'] == h0 + k, s['t'] == t0, k <= t0 - h0, s['arr'].eq(arr0) if ctx.phase == 'head' else s['arr'] == arr0,
+                        z3.ForAll([j], z3.Implies(z3.And(j >= 0, j < k), z3.Select(it.arr, j) == z3.Select(arr0, h0 + j)))))]
+
+    def havoc_drain(ctx):
+        lst = M.SymList(z3.Array(E.path.fresh_name('items.arr'), z3.IntSort(), z3.IntSort()), E.fresh_int('items.n', 0), 'items')
+        ctx.set_local('items', lst, *ITEMS)
+        st['items'] = lst
+        s['h'] = z3.Int(E.path.fresh_name('sendq.h'))
+    E.loop_specs[(SPF, 0)] = LoopSpec(inv_drain, lambda ctx: s['t'] - s['h'], havoc=havoc_drain, modifies=['!items'])
+
+    def inv_refill(ctx):
+        k = I(ctx.k)
+        it = st['items']
+        return [('priority frame first, then the first k drained items in order',
+                 z3.And(s['h'] == t0, s['t'] == t0 + 1 + k, z3.Select(s['arr'], t0) == fid,
+                        z3.ForAll([j], z3.Implies(z3.And(j >= 0, j < k), z3.Select(s['arr'], t0 + 1 + j) == z3.Select(it.arr, j)))))]
+
+    def havoc_refill(ctx):
+        s['t'] = z3.Int(E.path.fresh_name('sendq.t'))
+        s['arr'] = z3.Array(E.path.fresh_name('sendq.arr'), z3.IntSort(), z3.IntSort())
+        q.attrs['_unfinished_tasks'] = E.fresh_int('sendq.unfinished')
+    E.loop_specs[(SPF, 1)] = LoopSpec(inv_refill, None, havoc=havoc_refill)
+    E.call(E.getattr(sock, 'send_priority_frame'), [fr])
+    E.cover('inserted')
+    n = t0 - h0
+    E.prove('priority:frame_at_the_head', z3.And(s['t'] - s['h'] == n + 1, z3.Select(s['arr'], s['h']) == fid))
+    E.prove('priority:previous_content_behind_it_in_the_previous_order[nothing lost, duplicated or re-ordered; any length]',
+            z3.ForAll([j], z3.Implies(z3.And(j >= 0, j < n), z3.Select(s['arr'], s['h'] + 1 + j) == z3.Select(arr0, h0 + j))))
+
+
 def _priority(n):
     def run(E):
         E.import_module('asyncio')
